@@ -217,7 +217,23 @@ void Sim::exec_step(const Step& s, ns_t* next_override) {
         o.qos = s.a; o.retain = s.b; o.topic = s.s1; o.payload = s.s2; o.props = s.props;
         if (s.c) o.slot = client->new_slot();
         cur_init_op = op;
-        client->async_publish(s.a, s.s1, s.s2, s.b, s.props, ops[op].slot, cb(op));
+        CompletionFn fn = cb(op);
+        if (s.d > 0) {
+            // chained publishing: the application initiates the next publish from inside the completion handler of this one
+            // (a common usage pattern; it makes packet identifiers be re-used the moment they become free)
+            Step next = s;
+            next.d = s.d - 1; next.delay = 0; next.c = 0;
+            next.id = s.id + 100000 * s.d;         // fresh tag, unique per chain (step ids stay far below 100000)
+            next.s1 = "t/" + std::to_string(next.id);
+            auto colon = s.s2.find(':');
+            next.s2 = std::to_string(next.id) + (colon == std::string::npos ? std::string(":") : s.s2.substr(colon));
+            fn = [this, inner = std::move(fn), next](Completion c) {
+                bool aborted = c.ec == boost::asio::error::operation_aborted;
+                inner(std::move(c));
+                if (!aborted && client && running) { w.count("probe.chained_publish"); exec_step(next, nullptr); }
+            };
+        }
+        client->async_publish(s.a, s.s1, s.s2, s.b, s.props, ops[op].slot, std::move(fn));
         ops[op].init_done_seq = w.next_seq();
         cur_init_op = -1;
         break;
